@@ -116,7 +116,7 @@ def run_task(t: Task, scratch: str) -> Task:
         call = extract_call(t.result.get("counterexample", ""))
         t.result["call"] = call
         if call is None:
-            t.replay = {"holds": None, "error": "could not extract call from counterexample"}
+            t.replay = {"holds": None, "error": "no call in counterexample message: " + str(t.result.get("counterexample"))[:300]}
         else:
             try:
                 p = subprocess.run(
